@@ -79,3 +79,195 @@ Print Assumptions C26_error_iff.
 Example C26_error_iff_ex :
   In (EvResult 0 (RErr 1)) (log ex_s) /\ In (EvEnd 1 false) (log ex_s) /\ steps ex_c init ex_tr ex_s.
 Proof. split; [|split]; [vm_compute; tauto|vm_compute; tauto|exact ex_steps]. Qed.
+
+(* The reported error is the one recorded first: when a failing task's LWFinish region finds w.err = nil
+   (state s1), then in every later state the only result its job can have is the error of that task, and
+   until the result is reported w.err stays that error. *)
+Theorem C26_first_error_reported : forall c tr1 s1 w t s1' tr2 s2, c_fixed c = true ->
+  steps c init tr1 s1 -> wst s1 w = WRan t false -> err s1 = None ->
+  step c s1 (LWFinish w) = Some s1' -> steps c s1' tr2 s2 ->
+  (forall r, In (EvResult (owner s1 t) r) (log s2) -> r = RErr t) /\
+  (err s2 = Some t \/ In (EvResult (owner s1 t) (RErr t)) (log s2)).
+Proof. exact first_error_reported. Qed.
+Print Assumptions C26_first_error_reported.
+
+Definition ex_s1 : state :=
+  match run_labels ex_c init (firstn 16 ex_tr) with Some s => s | None => init end.
+Example C26_first_error_reported_ex :
+  steps ex_c init (firstn 16 ex_tr) ex_s1 /\ wst ex_s1 1 = WRan 1 false /\ err ex_s1 = None /\
+  step ex_c ex_s1 (LWFinish 1) <> None.
+Proof.
+  split; [|split; [vm_compute; reflexivity|split; [vm_compute; reflexivity|vm_compute; discriminate]]].
+  apply run_labels_steps. unfold ex_s1.
+  destruct (run_labels ex_c init (firstn 16 ex_tr)) eqn:E; [reflexivity|]. vm_compute in E. discriminate.
+Qed.
+
+(* A task whose LWCheck region comes after the error was recorded is skipped: it never begins, and the
+   worker goes back to its select loop (it does not exit — the pre-0eb992d code did). *)
+Theorem C26_skipped_after_error : forall c tr1 s1 w t t0 s1' tr2 s2, c_fixed c = true ->
+  steps c init tr1 s1 -> wst s1 w = WGot t -> err s1 = Some t0 ->
+  step c s1 (LWCheck w) = Some s1' -> steps c s1' tr2 s2 ->
+  ~ In (EvBegin t) (log s2) /\ wst s1' w = WIdle.
+Proof. exact skipped_never_begins. Qed.
+Print Assumptions C26_skipped_after_error.
+
+Definition ex2_c : cfg := mkC 1 4 (fun t => Nat.eqb t 0) true.
+Definition ex2_tr : list label :=
+  [LNewJob; LGo 0; LGo 0; LDone 0; LDRecv; LDCheck; LDTake; LHandoff 0; LWCheck 0; LWEnd 0 false; LWFinish 0;
+   LDTake; LHandoff 0].
+Definition ex2_s : state := match run_labels ex2_c init ex2_tr with Some s => s | None => init end.
+Example C26_skipped_after_error_ex :
+  steps ex2_c init ex2_tr ex2_s /\ wst ex2_s 0 = WGot 1 /\ err ex2_s = Some 0 /\
+  step ex2_c ex2_s (LWCheck 0) <> None.
+Proof.
+  split; [|split; [vm_compute; reflexivity|split; [vm_compute; reflexivity|vm_compute; discriminate]]].
+  apply run_labels_steps. unfold ex2_s.
+  destruct (run_labels ex2_c init ex2_tr) eqn:E; [reflexivity|]. vm_compute in E. discriminate.
+Qed.
+
+(* ---- jobs are processed one at a time, in submission order ---------------------------------------- *)
+(* (the log is newest first: in [l1 ++ e :: l2], l2 is what happened before e and l1 what happened after) *)
+Theorem C26_jobs_sequential : forall c tr s, c_fixed c = true -> steps c init tr s ->
+  (* results are reported in submission order *)
+  (forall l1 j r l2, log s = l1 ++ EvResult j r :: l2 ->
+     forall j', j' < j -> exists r', In (EvResult j' r') l2) /\
+  (* a task of job j begins only after its Go and after every earlier job reported its result *)
+  (forall l1 t l2 j, log s = l1 ++ EvBegin t :: l2 -> In (EvGo j t) (log s) ->
+     In (EvGo j t) l2 /\ forall j', j' < j -> exists r', In (EvResult j' r') l2) /\
+  (* once a job's result is reported none of its tasks begins or ends *)
+  (forall l1 j r l2 t, log s = l1 ++ EvResult j r :: l2 -> In (EvGo j t) (log s) ->
+     ~ In (EvBegin t) l1 /\ forall ok, ~ In (EvEnd t ok) l1).
+Proof.
+  intros c tr s Hf H. split; [|split].
+  - intros l1 j r l2. eapply results_in_order; eauto.
+  - intros l1 t l2 j. eapply begin_after_earlier_results; eauto.
+  - intros l1 j r l2 t. eapply no_activity_after_result; eauto.
+Qed.
+Print Assumptions C26_jobs_sequential.
+
+Example C26_jobs_sequential_ex : exists l1 l2,
+  log ex_s = l1 ++ EvBegin 2 :: l2 /\ In (EvGo 1 2) (log ex_s) /\ In (EvResult 0 (RErr 1)) l2.
+Proof.
+  exists [EvStopRet; EvStop; EvResult 1 RNil; EvEnd 2 true].
+  eexists. split; [vm_compute; reflexivity|]. split; vm_compute; tauto.
+Qed.
+
+(* ---- Stop ------------------------------------------------------------------------------------------ *)
+Theorem C26_stop : forall c tr s, c_fixed c = true -> steps c init tr s ->
+  (* pending jobs: a job still in the queue (or just received, not yet checked) when shouldShutdown is set
+     can only report shutdown, and none of its tasks ever begins *)
+  (forall j tr2 s2, In EvStop (log s) -> (In j (queue s) \/ disp s = DGot j) -> steps c s tr2 s2 ->
+     (forall r, In (EvResult j r) (log s2) -> r = RShutdown) /\
+     (forall t, In (EvGo j t) (log s2) -> ~ In (EvBegin t) (log s2))) /\
+  (* future jobs: NewJob is refused once Stop has begun; no job is ever accepted after the Stop event *)
+  (forall s', In EvStop (log s) -> step c s LNewJob = Some s' ->
+     log s' = EvRefused :: log s /\ njobs s' = njobs s /\ queue s' = queue s) /\
+  (forall l1 j l2, log s = l1 ++ EvNewJob j :: l2 -> ~ In EvStop l2) /\
+  (* Stop returns only when every worker has exited (and the queue goroutine is done and every accepted
+     job has a result); the return label is enabled only then *)
+  (In EvStopRet (log s) ->
+     (forall w, w < c_nw c -> wst s w = WExited) /\ disp s = DDone /\
+     (forall j, j < njobs s -> exists r, In (EvResult j r) (log s))) /\
+  (forall s', step c s LStopRet = Some s' -> forall w, w < c_nw c -> wst s w = WExited).
+Proof.
+  intros c tr s Hf H. split; [|split; [|split; [|split]]].
+  - intros j tr2 s2 Hst Hq H2. eapply stop_pending_jobs; eauto.
+  - intros s'. eapply newjob_refused_after_stop; eauto.
+  - intros l1 j l2. eapply no_accept_after_stop; eauto.
+  - apply (stop_returns_after_workers_exit c tr s Hf H).
+  - apply (stop_returns_after_workers_exit c tr s Hf H).
+Qed.
+Print Assumptions C26_stop.
+
+Definition ex3_tr : list label := [LNewJob; LNewJob; LGo 1; LStopBegin].
+Definition ex3_s : state := match run_labels ex_c init ex3_tr with Some s => s | None => init end.
+Example C26_stop_ex :
+  steps ex_c init ex3_tr ex3_s /\ In EvStop (log ex3_s) /\ In 1 (queue ex3_s) /\
+  step ex_c ex3_s LNewJob <> None /\ In EvStopRet (log ex_s).
+Proof.
+  split; [|split; [vm_compute; tauto|split; [vm_compute; tauto|split; [vm_compute; discriminate|vm_compute; tauto]]]].
+  apply run_labels_steps. unfold ex3_s.
+  destruct (run_labels ex_c init ex3_tr) eqn:E; [reflexivity|]. vm_compute in E. discriminate.
+Qed.
+
+(* ---- progress -------------------------------------------------------------------------------------- *)
+(* [can_move c s]: some label of the pool itself (queue goroutine, a worker, or the running Stop call:
+   everything but the client calls NewJob / Go / Done / Stop-begin) is enabled.
+
+   In every reachable state of the current code with at least one worker, either the pool can move, or the
+   dispatcher waits for the client to send more tasks to / close the job it is processing (API contract:
+   every job is closed with Done), or every accepted job has reported its result and Stop, if it was
+   called, has returned.
+
+   Remark: the shorter statement "either every closed job has a result or the pool can move" is FALSE for
+   the model and for the Go code (by design): a closed job queued behind a job the client has not closed
+   yet waits for that Done; see C26_no_deadlock_needs_done below.  The second theorem gives the exact
+   guard: all predecessors closed. *)
+Theorem C26_no_deadlock : forall c tr s, c_fixed c = true -> c_nw c >= 1 -> steps c init tr s ->
+  can_move c s \/
+  (exists j, disp s = DLoop j /\ j < njobs s /\ jclosed (jobs s j) = false /\ jtasks (jobs s j) = []) \/
+  ((forall j, j < njobs s -> exists r, In (EvResult j r) (log s)) /\ (stop s = SNone \/ stop s = SRet)).
+Proof. exact no_deadlock. Qed.
+Print Assumptions C26_no_deadlock.
+
+Theorem C26_no_deadlock_quiescent : forall c tr s, c_fixed c = true -> c_nw c >= 1 -> steps c init tr s ->
+  ~ can_move c s ->
+  (forall j, j < njobs s -> (forall j', j' <= j -> jclosed (jobs s j') = true) ->
+             exists r, In (EvResult j r) (log s)) /\
+  ((forall j, j < njobs s -> jclosed (jobs s j) = true) -> In EvStop (log s) -> In EvStopRet (log s)).
+Proof. exact quiescent_complete. Qed.
+Print Assumptions C26_no_deadlock_quiescent.
+
+Example C26_no_deadlock_ex : ~ can_move ex_c ex_s /\ njobs ex_s = 2.
+Proof.
+  split; [|vm_compute; reflexivity]. intros (l & s' & Hi & Hs).
+  assert (Hn : step ex_c ex_s l = None).
+  { clear Hs. destruct l; try discriminate Hi; try (vm_compute; reflexivity).
+    all: destruct w as [|[|w]]; vm_compute; reflexivity. }
+  congruence.
+Qed.
+
+(* why the guard "all predecessors closed" is needed: job 0 accepted and left open, job 1 closed *)
+Definition ex4_tr : list label := [LNewJob; LNewJob; LDone 1; LDRecv; LDCheck].
+Definition ex4_s : state := match run_labels ex_c init ex4_tr with Some s => s | None => init end.
+Theorem C26_no_deadlock_needs_done : exists c tr s,
+  c_fixed c = true /\ c_nw c >= 1 /\ steps c init tr s /\
+  jclosed (jobs s 1) = true /\ jresult (jobs s 1) = None /\ jclosed (jobs s 0) = false /\
+  forall l, internal l = true -> step c s l = None.
+Proof.
+  exists ex_c, ex4_tr, ex4_s. split; [reflexivity|]. split; [cbn; auto|]. split.
+  - apply run_labels_steps. unfold ex4_s.
+    destruct (run_labels ex_c init ex4_tr) eqn:E; [reflexivity|]. vm_compute in E. discriminate.
+  - split; [vm_compute; reflexivity|]. split; [vm_compute; reflexivity|]. split; [vm_compute; reflexivity|].
+    intros l Hi. destruct l; try discriminate Hi; try (vm_compute; reflexivity).
+    all: destruct w as [|[|w]]; vm_compute; reflexivity.
+Qed.
+Print Assumptions C26_no_deadlock_needs_done.
+
+(* ---- the code before fix commit 0eb992d (c_fixed = false) deadlocks --------------------------------- *)
+(* one worker, job 0 = two tasks, the first fails: the worker sees the error at the second task and exits;
+   job 0 still completes, but job 1 (submitted and closed) never gets a worker: its task is held by the
+   dispatcher, no label of the pool is enabled, and no result is ever reported. *)
+Theorem C26_pinned_refuted : exists c tr s j,
+  c_fixed c = false /\ c_nw c >= 1 /\ steps c init tr s /\
+  (forall j', j' < njobs s -> jclosed (jobs s j') = true) /\
+  j < njobs s /\ jresult (jobs s j) = None /\ (forall r, ~ In (EvResult j r) (log s)) /\
+  forall l, internal l = true -> step c s l = None.
+Proof. exact pinned_deadlock. Qed.
+Print Assumptions C26_pinned_refuted.
+
+(* ---- the serial pool (serial_workers.go) ------------------------------------------------------------ *)
+(* [serial_job fails None 0 = (ran, r)]: [fails] = per task whether it fails, [ran] = the tasks executed,
+   [r] = the reported error (index of the task).  Tasks run in order; the job stops at the first failure and
+   reports it; it reports an error iff an executed task failed; all run if none fails. *)
+Theorem C26_serial_spec : forall fails ran r, serial_job fails None 0 = (ran, r) ->
+  (forall k, r = Some k ->
+     ran = seq 0 (S k) /\ k < length fails /\ nth k fails false = true /\
+     forall i, i < k -> nth i fails false = false) /\
+  (r = None -> ran = seq 0 (length fails) /\ forall i, nth i fails false = false) /\
+  (r <> None <-> exists i, In i ran /\ nth i fails false = true).
+Proof. exact serial_spec. Qed.
+Print Assumptions C26_serial_spec.
+
+Example C26_serial_spec_ex : serial_job [false; true; false; true] None 0 = ([0; 1], Some 1).
+Proof. reflexivity. Qed.
